@@ -169,6 +169,8 @@ Proof. apply bool_decide_eq_false_2. intros H; inversion H. Qed.
 Lemma names_of_node_dt n (s s' : st) : services s = services s' -> names_of (svcs_of_node n s) = names_of (svcs_of_node n s').
 Proof. intros H. rewrite (svcs_of_node_dt n s s' H). reflexivity. Qed.
 
+Ltac inl := repeat first [apply elem_of_list_here | apply elem_of_list_further].
+
 (* the index after a chain of bumps, as a boolean test on the key *)
 Ltac bdnorm := rewrite ?bd_app, ?bd_cons, ?bd_nil, ?orb_false_r.
 
@@ -203,15 +205,15 @@ Proof.
       destruct (decide (k = k_svc (sv_name o))) as [->|Hk].
       * rewrite lookup_delete.
         pose proof (k_svc_fixed (sv_name o)) as Hf.
-        rewrite (bool_decide_eq_false_2 (k_svc (sv_name o) = k_sext)) by (apply Hf; set_solver).
+        rewrite (bool_decide_eq_false_2 (k_svc (sv_name o) = k_sext)) by (apply Hf; inl).
         rewrite (bool_decide_eq_false_2 (_ ∈ [k_services; _; _; _])).
-        2: { rewrite !elem_of_cons, elem_of_nil. intros [H|[H|[H|[H|[]]]]]; try (revert H; apply Hf; set_solver).
+        2: { rewrite !elem_of_cons, elem_of_nil. intros [H|[H|[H|[H|[]]]]]; try (solve [revert H; apply Hf; inl]).
              - apply k_svc_inj in H. contradiction.
              - revert H. apply k_svc_node. }
-        rewrite (bool_decide_eq_false_2 (_ ∈ [k_sext])) by (rewrite elem_of_list_singleton; apply Hf; set_solver).
-        rewrite (bool_decide_eq_true_2 (_ ∈ [k_svc (sv_name o)])) by set_solver. reflexivity.
+        rewrite (bool_decide_eq_false_2 (_ ∈ [k_sext])) by (rewrite elem_of_list_singleton; apply Hf; inl).
+        rewrite (bool_decide_eq_true_2 (_ ∈ [k_svc (sv_name o)])) by inl. reflexivity.
       * rewrite lookup_delete_ne by congruence. rewrite H1.
-        rewrite (bool_decide_eq_false_2 (k ∈ [k_svc (sv_name o)])) by set_solver.
+        rewrite (bool_decide_eq_false_2 (k ∈ [k_svc (sv_name o)])) by (rewrite elem_of_list_singleton; exact Hk).
         rewrite (bd_cons k k_sext), bd_nil, orb_false_r.
         repeat (case_bool_decide; cbn [orb]); try reflexivity; contradiction.
     + rewrite lookup_ibump by bnd. rewrite H1, bd_app, bd_nil. rewrite (bd_cons k (k_svc (sv_name o))), bd_nil, orb_false_r.
@@ -296,6 +298,12 @@ Qed.
 (* ---------- the data a primitive changes ---------- *)
 Ltac dts := repeat (progress (rewrite ?dt_ibump, ?dt_bump_names, ?dt_iset, ?dt_idel; cbn)).
 
+Ltac crush_data :=
+  repeat match goal with
+         | |- context [match ?x with _ => _ end] => destruct x eqn:?
+         end;
+  dts; try reflexivity; try (symmetry; apply delete_notin; assumption).
+
 Lemma services_papply i p s :
   services (papply i p s) =
   match p with
@@ -303,14 +311,7 @@ Lemma services_papply i p s :
   | PSvcDel n sid => delete (n, sid) (services s)
   | _ => services s
   end.
-Proof.
-  destruct p; cbn [papply]; try (dts; reflexivity).
-  - destruct (bool_decide _); dts; reflexivity.
-  - destruct (services s !! (n, sid)) eqn:E; [|symmetry; apply delete_notin; exact E].
-    destruct (bool_decide _); dts; reflexivity.
-  - destruct (bool_decide _); dts; reflexivity.
-  - destruct (checks s !! (n, cid)); [|reflexivity]. destruct (bool_decide _); dts; reflexivity.
-Qed.
+Proof. destruct p; cbn [papply]; crush_data. Qed.
 
 Lemma nodes_papply i p s :
   nodes (papply i p s) =
@@ -319,14 +320,7 @@ Lemma nodes_papply i p s :
   | PNodeDel n => delete n (nodes s)
   | _ => nodes s
   end.
-Proof.
-  destruct p; cbn [papply]; try (dts; reflexivity).
-  - destruct (bool_decide _); dts; reflexivity.
-  - destruct (services s !! (n, sid)) eqn:E; [|reflexivity].
-    destruct (bool_decide _); dts; reflexivity.
-  - destruct (bool_decide _); dts; reflexivity.
-  - destruct (checks s !! (n, cid)); [|reflexivity]. destruct (bool_decide _); dts; reflexivity.
-Qed.
+Proof. destruct p; cbn [papply]; crush_data. Qed.
 
 Lemma checks_papply i p s :
   checks (papply i p s) =
@@ -335,15 +329,7 @@ Lemma checks_papply i p s :
   | PChkDel n cid => delete (n, cid) (checks s)
   | _ => checks s
   end.
-Proof.
-  destruct p; cbn [papply]; try (dts; reflexivity).
-  - destruct (bool_decide _); dts; reflexivity.
-  - destruct (services s !! (n, sid)) eqn:E; [|reflexivity].
-    destruct (bool_decide _); dts; reflexivity.
-  - destruct (bool_decide _); dts; reflexivity.
-  - destruct (checks s !! (n, cid)) eqn:E; [|symmetry; apply delete_notin; exact E].
-    destruct (bool_decide _); dts; reflexivity.
-Qed.
+Proof. destruct p; cbn [papply]; crush_data. Qed.
 
 Definition kvs_after (i : N) (p : prim) (m : gmap string kvent) : gmap string kvent :=
   match p with
@@ -365,11 +351,7 @@ Definition tombs_after (i : N) (p : prim) (s : st) : gmap string N :=
   | _ => tombs s
   end.
 
-Ltac data_cases n sid cid s :=
-  try (dts; reflexivity);
-  try (destruct (bool_decide _); dts; reflexivity);
-  try (destruct (services s !! (n, sid)); [destruct (bool_decide _)|]; dts; reflexivity);
-  try (destruct (checks s !! (n, cid)); [destruct (bool_decide _)|]; dts; reflexivity).
+Ltac data_cases n sid cid s := crush_data.
 
 Lemma kvs_papply i p s : kvs (papply i p s) = kvs_after i p (kvs s).
 Proof. destruct p; cbn [papply kvs_after]; data_cases n sid cid s. Qed.
